@@ -40,6 +40,11 @@ class JoinSpec(nfa.Spec):
             if ph != "none":
                 return nfa.Err("R17.2: None is returned in phase %s" % ph)
             return ("ret",)
+        if ev in ("done:opthandle", "done:opthandle|take"):
+            # `OptionFuture::from(taken).await`: waits for the handle if there was one, yields None at once if there was none
+            if ph != "taken":
+                return nfa.Err("R17.2: an optional task handle is awaited in phase %s (must be what was just taken out of the slot)" % ph)
+            return ("joined",)
         if ev in ("done:handle", "done:take"):
             if ph != "have":
                 return nfa.Err("R17.2: a task handle is awaited in phase %s (must be the one just taken out of the slot)" % ph)
@@ -126,6 +131,17 @@ def check_cfg(ctx, fx, cfg):
         mop = graph.maker_operand(t_, makers)
         rs = roots(gb, mop) if mop is not None else set()
         kinds = {("default" if r.kind == "call:core::default::Default::default" else r.kind) for r in rs}
+        # a maker given to the entry point instead of the value (`from_registry_or_spawn_with(make)` .. `create_loop(make())`):
+        # the value is what the supplied callable returns; for an API without an actor parameter it must be `Default::default`
+        if any(k.endswith(graph.CALLABLE_CALLS) for k in kinds):
+            k2 = set()
+            for r in rs:
+                if r.kind.endswith(graph.CALLABLE_CALLS):
+                    mk = graph.supplied_maker(fx, gb, g, r, roots, lambda g_: ctx.body(fx, g_))
+                    k2 |= {"default" if graph.maker_is_default(fx, m_, roots, lambda g_: ctx.body(fx, g_)) else ("arg" if m_ == "arg" else "?:" + m_) for m_ in mk}
+                else:
+                    k2.add("default" if r.kind == "call:core::default::Default::default" else r.kind)
+            kinds = k2
         # an entry point that is given no actor value (no parameter of the actor type) can only run a fresh default one
         rootf = fx.fn(g.get("root", g["def"])) or g
         actor_tys = ("A", "Self", "&mut A", "&mut Self")
@@ -172,7 +188,15 @@ def handle_parts(ctx, fx, f):
     """for a Spawner::spawn_actor implementation f: (join implementation, detach implementation or None) — the closures given
     to `ActorHandle::new(join_fn)` / `.with_detach_fn(detach_fn)`, or the `join` / `detach` methods of the task object given
     to a constructor of the handle (`ActorHandle::from_task(SmolTask(slot))`)"""
-    b = ctx.body(fx, f)
+    # (with crate-private helpers inlined: the handle may be put together by a shared constructor — `ActorHandle::join_once(task,
+    # settle)` — or the closure built by a private function of the spawner's module)
+    import inline
+
+    def _helpers(g, t):
+        # (a constructor that writes the handle's struct literal itself — `ActorHandle::from_task(task)` — stays a call: it
+        # is what "the handle is built from" refers to)
+        return inline.not_public(g, t) and not any(True for _ in agg_sites(ctx.body(fx, g), adt="actor::spawner::actor_handle::ActorHandle"))
+    b = inline.body(ctx, fx, f, _helpers)
     join = detach = None
     mk = [t for _, t in b.normal_calls() if fx.callee_fn(t) is not None and (fx.callee_fn(t).get("output") or "").startswith("actor::spawner::actor_handle::ActorHandle<") and (fx.callee_fn(t).get("impl_self") or "").startswith("actor::spawner::actor_handle::ActorHandle<")]
     tt = task_trait(fx)
@@ -240,6 +264,26 @@ def reporting_task(ctx, fx, f, b, spawn_t):
     return {"ok": True, "why": ""}
 
 
+def join_futures(ctx, fx, jc):
+    """the futures a join implementation builds: the async blocks written in it or in a synchronous function it forwards to
+    (`move || join_task(&handle)`), and the bodies of the crate-local `async fn`s it calls to make the future
+    (`Box::pin(join_reported(handle))`, `Box::pin(result.share().wait())`)"""
+    cos = []
+    for g_ in graph.with_forwarded(fx, jc, depth=2):
+        gb = ctx.body(fx, g_)
+        for _bi, _si, st in agg_sites(gb, ak="coroutine"):
+            cos.append(fx.fn(st["r"]["def"]))
+        for _bi, t in gb.normal_calls():
+            h = fx.callee_fn(t)
+            if h is not None and h.get("is_async") and h["kind"] in ("fn", "assoc_fn"):
+                cos.extend(c for c in fx.children_of(h["def"]) if c["kind"] == "coroutine")
+    out = []
+    for c in cos:
+        if c is not None and c["def"] not in {x["def"] for x in out}:
+            out.append(c)
+    return out
+
+
 def check_join_handle_is_inert(ctx, fx, cfg, RULE="R17.5"):
     """what a join future waits on has no power over the actor, and a detach cannot take it away: (a) the value a join takes
     out of the slot and awaits is not a runtime task handle whose drop cancels the task (a join that is given up after its
@@ -254,7 +298,7 @@ def check_join_handle_is_inert(ctx, fx, cfg, RULE="R17.5"):
         if jc is None:
             continue
         # (a) what the join future awaits
-        cos = [fx.fn(st["r"]["def"]) for g_ in graph.with_forwarded(fx, jc) for _bi, _si, st in agg_sites(ctx.body(fx, g_), ak="coroutine")]
+        cos = join_futures(ctx, fx, jc)
         awaited = []
         for co in cos:
             if co is None:
@@ -282,7 +326,8 @@ def check_join(ctx, fx, cfg, RULE):
     for f in spawners:
         sname = (f.get("impl_self") or "?").split("::")[-1]
         inst = "%s@%s" % (sname, cfg)
-        b = ctx.body(fx, f)
+        import inline
+        b = inline.body(ctx, fx, f, inline.not_public)  # (`let result_rx = spawn_reporting(future);`)
         # the runtime handle of the spawned loop future is stored in the shared Option slot
         sp = [(bi, t) for bi, t in b.normal_calls() if t.get("callee") in runtimes.SPAWN_FNS]
         if not ctx.require(len(sp) == 1, RULE, inst + ":spawns-once", "spawn_actor must hand its future to the runtime exactly once", fn=f["def"], site=f["loc"]):
@@ -303,16 +348,17 @@ def check_join(ctx, fx, cfg, RULE):
             continue
         jb = ctx.body(fx, jc)
         # the future is built by the closure itself or by a named function it forwards to (`move || join_task(&handle)`)
-        cos = [fx.fn(st["r"]["def"]) for g_ in graph.with_forwarded(fx, jc) for _bi, _si, st in agg_sites(ctx.body(fx, g_), ak="coroutine")]
+        cos = join_futures(ctx, fx, jc)
         if not ctx.require(len(cos) == 1, RULE, inst + ":join-future", "the join closure must build exactly one future", fn=jc["def"], site=jc["loc"]):
             continue
         co = cos[0]
         cb = ctx.body(fx, co)
         A = nfa.Alphabet(
             calls=[("lock", lambda t: (t.get("callee") or "").startswith("async_lock::mutex::") and (t.get("callee") or "").endswith(("::lock", "::lock_arc"))),
-                   ("take", nfa.callee_ends("option::{impl#0}::take"))],
+                   ("take", nfa.callee_ends("option::{impl#0}::take")),
+                   ("opthandle", lambda t: (t.get("resolved") or "").startswith("futures_util::future::option::") and (t.get("callee") or "").endswith("From::from"))],
             adts={"core::option::Option": "Option", "core::ops::control_flow::ControlFlow": "Res"}, retval=True,
-            fut_types=[(p[:-1], "handle") for p in runtimes.HANDLES] + [("futures_channel::oneshot::Receiver<core::result::Result<A,", "handle")])
+            fut_types=[("futures_util::future::option::OptionFuture<", "opthandle")] + [(p[:-1], "handle") for p in runtimes.HANDLES] + [("futures_channel::oneshot::Receiver<core::result::Result<A,", "handle")])
         n = nfa.build(cb, A, fx, depth=2)  # the slot may be a small type of its own with an async `take`
         viols, ps = nfa.check(n, JoinSpec())
         ctx.count_nfa(n.stats(), ps)
@@ -403,7 +449,8 @@ def check_forwarding(ctx, fx, cfg):
         ctx.require(any(s["k"] == "ret" for s in sinks(gb, t["dest"][0])) or t["dest"] == [0], "R17.3", "join-returns-handle-join@" + cfg, "OwningAddr::join must return the handle's join future", fn=g["def"], site=t["l"])
     ahj = fx.fn("actor::spawner::actor_handle::ActorHandle::<A>::join")
     if ctx.require(ahj is not None, "R17.3", "ActorHandle::join@" + cfg, "ActorHandle::join not found"):
-        gb = ctx.body(fx, ahj)
+        import inline
+        gb = inline.body(ctx, fx, ahj, inline.not_public)  # (`self.join_fn.call()` with `JoinFn(Box<dyn FnMut() -> JoinFuture<A>>)`)
         ind = [t for _, t in gb.normal_calls() if (t.get("callee") or "").endswith(("FnMut::call_mut", "Fn::call", "FnOnce::call_once")) and "[Output=core::pin::Pin<alloc::boxed::Box<dyn core::future::future::Future + [Output=core::option::Option<A>]" in " ".join(t["argtys"])]
         tt_ = task_trait(fx)
         if not ind and tt_ is not None:
